@@ -161,7 +161,7 @@ def splitdown(h):
 
 def make_unpack(inc):
     @vc('C14.iterunpack.%s' % ('keep' if inc else 'drop'), functions=[UP + 'iterunpack'], props=['C14', 'C03', 'C02'],
-        assumptions=['field = valid non-negative index whose name occurs once in the header; newfields = a number n >= 0 of values to unpack',
+        assumptions=['field = valid non-negative index whose name occurs once in the header; newfields = a tuple of n >= 0 new field names',
                      'the cell is a sequence', 'stateless-body rule (engine meta-theorem)'])
     def task(h):
         def body(ctx):
@@ -180,13 +180,16 @@ def make_unpack(inc):
                                                                                          z3.If(q - base < cell.len, z3.Select(cell.arr, q - base), missing.t))))))
             it = h.interp(ctx, loops={(UP + 'iterunpack', 0): LoopSpec(delta=delta, label='rows')})
             S, f = setup(ctx, it)
-            n = sym_int('n')
-            ctx.assume(n.t >= 0)
+            newfields = sym_seq(ctx, 'newfields', 'tuple')
+            n = SInt(newfields.len)
             missing = sym_cell('missing')
-            res = run_generator(it, closure_of(it, UP + 'iterunpack'), [S, f, n, inc, missing])
+            x_ = z3.Const('x!u', V)
+            ctx.facts.append(z3.ForAll([x_], z3.Not(smt.py_eq(bi._strf(x_), smt.mkint(f.t)))))       # a field name (a str) is never == an int index
+            res = run_generator(it, closure_of(it, UP + 'iterunpack'), [S, f, newfields, inc, missing])
             escapes(ctx, res, 'iterunpack', ('IndexError', 'TypeError'))
         h.explore(body)
     return task
 
 
-# make_unpack(False); make_unpack(True)   # under refinement (slow)
+make_unpack(False)
+make_unpack(True)
